@@ -60,7 +60,7 @@ def run(ctx: core.Ctx) -> int:
     cases = [c["case"] for c in E.load_corpus("C01")]
     n_corpus = len(cases)
     for _ in range(ctx.n(330, 4000)):
-        c = E.gen_case(rng, ctx, X.KINDS)
+        c = E.gen_case(rng, ctx, X.KINDS + ["AMORPH"] * 3)
         c["precalc"] = rng.random() < 0.4
         cases.append(c)
     for i, c in enumerate(cases):
